@@ -91,20 +91,22 @@ Pow(x, a) == IF a = Zero THEN One
 
 Fn(f, x) == App(f, <<x>>)
 
-(* max / min.  The only constants they meet are the clipping bounds of the *)
-(* losses: a rational with a 32-bit denominator that is > 0 is > 1e-12 and *)
-(* one that is < 1 is < 1 - 1e-12, which lets literal predictions fold.    *)
-MaxV(x, y) == IF IsQ(x) /\ IsQ(y) THEN (IF QLt(x, y) THEN y ELSE x)
-              ELSE IF IsCst(x, "epsLo") /\ IsQ(y) THEN (IF y.n > 0 THEN y ELSE x)
-              ELSE IF IsCst(y, "epsLo") /\ IsQ(x) THEN (IF x.n > 0 THEN x ELSE y)
-              ELSE IF x = y THEN x
-              ELSE App("max", <<x, y>>)
+(* Order of two terms when it is known: literals, and a literal against one *)
+(* of the clipping bounds of the losses (a rational with a 32-bit           *)
+(* denominator that is > 0 is > 1e-12, one that is < 1 is < 1 - 1e-12).     *)
+Ord(x, y) ==
+  IF IsQ(x) /\ IsQ(y) THEN (IF QLt(x, y) THEN "lt" ELSE IF QLt(y, x) THEN "gt" ELSE "eq")
+  ELSE IF IsQ(x) /\ IsCst(y, "epsLo") THEN (IF x.n > 0 THEN "gt" ELSE "lt")
+  ELSE IF IsCst(x, "epsLo") /\ IsQ(y) THEN (IF y.n > 0 THEN "lt" ELSE "gt")
+  ELSE IF IsQ(x) /\ IsCst(y, "epsHi") THEN (IF x.n < x.d THEN "lt" ELSE "gt")
+  ELSE IF IsCst(x, "epsHi") /\ IsQ(y) THEN (IF y.n < y.d THEN "gt" ELSE "lt")
+  ELSE IF IsCst(x, "epsLo") /\ IsCst(y, "epsHi") THEN "lt"
+  ELSE IF IsCst(x, "epsHi") /\ IsCst(y, "epsLo") THEN "gt"
+  ELSE IF x = y THEN "eq"
+  ELSE "unknown"
 
-MinV(x, y) == IF IsQ(x) /\ IsQ(y) THEN (IF QLt(y, x) THEN y ELSE x)
-              ELSE IF IsCst(x, "epsHi") /\ IsQ(y) THEN (IF y.n < y.d THEN y ELSE x)
-              ELSE IF IsCst(y, "epsHi") /\ IsQ(x) THEN (IF x.n < x.d THEN x ELSE y)
-              ELSE IF x = y THEN x
-              ELSE App("min", <<x, y>>)
+MaxV(x, y) == LET o == Ord(x, y) IN IF o = "lt" THEN y ELSE IF o \in {"gt", "eq"} THEN x ELSE App("max", <<x, y>>)
+MinV(x, y) == LET o == Ord(x, y) IN IF o = "gt" THEN y ELSE IF o \in {"lt", "eq"} THEN x ELSE App("min", <<x, y>>)
 
 B2Q(b) == IF b THEN One ELSE Zero
 
@@ -142,10 +144,10 @@ MinL(s) == IF Len(s) = 1 THEN s[1] ELSE MinV(MinL(SubSeq(s, 1, Len(s) - 1)), s[L
 (* evaluated; every value between the two is accepted).                    *)
 DSel(f, a, b, da, db) ==
   IF da = db THEN da
-  ELSE IF IsQ(a) /\ IsQ(b) /\ a # b
-       THEN (IF f = "dmax" THEN (IF QLt(b, a) THEN da ELSE db)
-                           ELSE (IF QLt(a, b) THEN da ELSE db))
-       ELSE App(f, <<a, b, da, db>>)
+  ELSE LET o == Ord(a, b)
+       IN IF o = "gt" THEN (IF f = "dmax" THEN da ELSE db)
+          ELSE IF o = "lt" THEN (IF f = "dmax" THEN db ELSE da)
+          ELSE App(f, <<a, b, da, db>>)
 
 (* d f(u) / du for the unary scalar functions *)
 DFn(f, u) == CASE f = "exp" -> Fn("exp", u)
